@@ -247,7 +247,10 @@ def handler_call_sites(ck, rule, roles):
         for c in calls_in(f.node):
             if prog.resolve_call(f, c) == h.qualname:
                 n += 1
-                if f.qualname != A.funnel(prog).qualname:
+                from ..common import closure_funcs
+                funnel_ = A.funnel(prog)
+                if f.qualname != funnel_.qualname and f not in closure_funcs(prog, funnel_) and f is not A.ovf_handler(prog):
+                    # (stages the funnel was split into - helpers new with respect to the pinned tree that set_val reaches - are the funnel)
                     ck.bad(rule, f, "the overflow handler is called only from the write funnel", "%s calls %s" % (f.qualname, h.name), c)
     ck.check(n >= 1, rule, h, "the overflow handler has call sites (%d) and all are in set_val, where its value argument is the rounding result on every path" % n,
              "overflow handler is never called")
